@@ -63,7 +63,7 @@ RE_NAME = re.compile('^%s$' % NAME)
 
 
 def identifier(prefix: str, suffix: str | None = None) -> str:
-    return "__{}_{}".format(prefix, mangle(suffix or id(prefix)))
+    return "__{}_{}".format(mangle(prefix), mangle(suffix or id(prefix)))
 
 
 def mangle(string: int | str) -> str:
